@@ -350,6 +350,9 @@ func elemHeapName(elem types.Type, c Comp) string {
 		heapHoldsRefs[n] = true
 		heapRefBlock[n] = refBlock(c.T)
 	}
+	if c.Leaf == "arr" {
+		heapHoldsRefs[n] = true // backing-array ids of stored slices are allocated ids
+	}
 	return n
 }
 func ptrHeapName(pointee types.Type, c Comp) string {
@@ -357,6 +360,9 @@ func ptrHeapName(pointee types.Type, c Comp) string {
 	if c.T != nil && (classify(c.T) == tcPtr || classify(c.T) == tcMap) {
 		heapHoldsRefs[n] = true
 		heapRefBlock[n] = refBlock(c.T)
+	}
+	if c.Leaf == "arr" {
+		heapHoldsRefs[n] = true
 	}
 	return n
 }
@@ -411,7 +417,10 @@ func (st *State) assumeTyped(v Val) {
 func (st *State) freshVal(prefix string, t types.Type) Val {
 	if classify(t) == tcFunc {
 		sig := t.Underlying().(*types.Signature)
-		return Val{K: KFunc, T: t, Fn: st.fc.funcSym(prefix, sig), S: ""}
+		// S: the integer token of the function value (what is stored when the value is assigned to a field)
+		tok := st.fc.fresh(prefix+"_fn", "Int")
+		st.assume(sCmp("<=", "0", tok))
+		return Val{K: KFunc, T: t, Fn: st.fc.funcSym(prefix, sig), S: tok}
 	}
 	comps := flatComps(t)
 	terms := make([]string, len(comps))
